@@ -278,6 +278,7 @@ def verify(contract, tier, check, budget=None, prefix=None):
         check.functions[contract.key] = {"obligations": 1, "discharged": 0, "paths": 0, "status": "unsupported-decorator", "shapes": 0}
         return rep
     jobs, metas = [], []
+    T.EXTRA_VIEWS[0] = bool(getattr(contract, "extra_views", False))
     for shape in contract.shapes:
         st = State()
         values = {}
